@@ -12,8 +12,7 @@ import CuqiVerif.Model.C20
      derivative `RExpr.deriv 0` of the log-density formula (what the property demands).
   2. **Vector-level assembly**, generic over the scalar type `α` (instantiated at `Rat` by the
      driver and at `ℝ` by the theorems — same definitions): `sumTo`, `gaussGrad`/`gaussQuad`
-     (`-(prec @ (x-mean))`, `-½ (x-mean)ᵀ P (x-mean)`), `cmrfGradCode` (`D @ val`, location ignored,
-     as in `CMRF._gradient`), `cmrfGradTrue`, `likGrad` (`model.gradient(prec @ (d - F x), x)` with the
+     (`-(prec @ (x-mean))`, `-½ (x-mean)ᵀ P (x-mean)`), `cmrfGrad` (`(-2u/(u²+s²)) @ D`, `u = D @ (val - location)`), `likGrad` (`model.gradient(prec @ (d - F x), x)` with the
      geometry chain rule of `Model.gradient`), `fdGrad` (`approx_gradient`).
   3. **Decision table** `gradStatus`: which of value / FD-value / raise / NaN / `None` / not-a-vector
      a call to `.gradient(x)` produces, transcribed from the guards of each family.
@@ -116,16 +115,19 @@ def sumGrad (parts : List (Nat → α)) (i : Nat) : α := parts.foldl (fun acc g
 
 variable [Div α]
 
-/-- `CMRF._gradient` **as coded**: `diff = D @ val` (location not subtracted),
-    `(-2*diff/(diff**2+scale**2)) @ D` -/
-def cmrfGradCode (m n : Nat) (D : Nat → Nat → α) (s : α) (x : Nat → α) (i : Nat) : α :=
+/-- `CMRF._gradient`: `diff = D @ (val - location)`, `(-2*diff/(diff**2+scale**2)) @ D`
+    (the pinned snapshot evaluated `D @ val`; repaired in /repo by commit 019a74f) -/
+def cmrfGrad (m n : Nat) (D : Nat → Nat → α) (s : α) (x l : Nat → α) (i : Nat) : α :=
+  sumTo m fun k =>
+    let u := matVec n D (fun j => x j - l j) k
+    ((-(u + u)) / (u * u + s * s)) * D k i
+
+/-- the former code (`diff = D @ val`, location ignored); kept only as the regression witness of
+    `Props/C03.cmrf_unshifted_not_deriv` -/
+def cmrfGradUnshifted (m n : Nat) (D : Nat → Nat → α) (s : α) (x : Nat → α) (i : Nat) : α :=
   sumTo m fun k =>
     let u := matVec n D x k
     ((-(u + u)) / (u * u + s * s)) * D k i
-
-/-- the same with `diff = D @ (val - location)`: the derivative of `CMRF.logpdf` -/
-def cmrfGradTrue (m n : Nat) (D : Nat → Nat → α) (s : α) (x l : Nat → α) (i : Nat) : α :=
-  cmrfGradCode m n D s (fun j => x j - l j) i
 
 /-- `x` with component `i` replaced -/
 def upd (x : Nat → α) (i : Nat) (v : α) : Nat → α := fun j => if j = i then v else x j
@@ -282,8 +284,7 @@ def multiStatus (parts : List Status) : Status := parts.foldl combine .value
 /-- rows of the table in which the returned vector is claimed (and proved, see Props/C03) to be the
     derivative of the log-density for *all* parameter values -/
 def closedFormProved : Family → Bool
-  | .gaussian | .gmrf | .cauchy | .beta | .invgamma | .lognormal | .smoothedLaplace | .mhn | .uniform => true
-  | .cmrf => false            -- only for location = 0 (`cmrf_grad_partial`)
+  | .gaussian | .gmrf | .cmrf | .cauchy | .beta | .invgamma | .lognormal | .smoothedLaplace | .mhn | .uniform => true
   | .userWithGrad => false    -- user-supplied
   | _ => false
 
